@@ -12,8 +12,13 @@ use std::time::Instant;
 
 #[derive(Clone, Debug)]
 pub enum Plan {
-    /// fail operation k of the device (0 = .shp, 1 = .shx)
-    Fault { dev: u8, k: u64, persistent: bool },
+    /// fail operation k of the device (0 = .shp, 1 = .shx); `chunk` > 0: the
+    /// devices also accept at most that many bytes per write call (k then
+    /// counts operations of the chunked run)
+    Fault { dev: u8, k: u64, persistent: bool, chunk: u64 },
+    /// a finalize fails at operation k1 of dev1, is called again and fails at
+    /// operation k2 of dev2, and is called a third time
+    Fault2 { dev1: u8, k1: u64, dev2: u8, k2: u64 },
     /// chunking schedule on both devices
     Chunk { kind: u8, arg: u64 },
 }
@@ -29,7 +34,8 @@ pub struct Case {
 impl Case {
     pub fn to_json(&self) -> Value {
         let plan = match &self.plan {
-            Plan::Fault { dev, k, persistent } => json!({"fault_on": (["shp", "shx"][*dev as usize]), "operation": k, "persistent": persistent}),
+            Plan::Fault { dev, k, persistent, chunk } => json!({"fault_on": (["shp", "shx"][*dev as usize]), "operation": k, "persistent": persistent, "chunk": chunk}),
+            Plan::Fault2 { dev1, k1, dev2, k2 } => json!({"fault2": [(["shp", "shx"][*dev1 as usize]), k1, (["shp", "shx"][*dev2 as usize]), k2]}),
             Plan::Chunk { kind, arg } => json!({"chunking": (["uniform", "one-op-1-byte", "one-op-all-but-last"][*kind as usize]), "arg": arg}),
         };
         json!({"ty": self.ty.name(), "with_shx": self.with_shx, "ops": ops_name(&self.ops), "plan": plan})
@@ -37,7 +43,10 @@ impl Case {
     pub fn from_json(v: &Value) -> Option<Case> {
         let p = v.get("plan")?;
         let plan = if let Some(d) = p.get("fault_on") {
-            Plan::Fault { dev: if d.as_str()? == "shp" { 0 } else { 1 }, k: p.get("operation")?.as_u64()?, persistent: p.get("persistent")?.as_bool()? }
+            Plan::Fault { dev: if d.as_str()? == "shp" { 0 } else { 1 }, k: p.get("operation")?.as_u64()?, persistent: p.get("persistent")?.as_bool()?, chunk: p.get("chunk").and_then(|x| x.as_u64()).unwrap_or(0) }
+        } else if let Some(a) = p.get("fault2").and_then(|x| x.as_array()) {
+            let d = |v: &Value| if v.as_str() == Some("shp") { 0u8 } else { 1u8 };
+            Plan::Fault2 { dev1: d(a.first()?), k1: a.get(1)?.as_u64()?, dev2: d(a.get(2)?), k2: a.get(3)?.as_u64()? }
         } else {
             let kind = match p.get("chunking")?.as_str()? {
                 "uniform" => 0,
@@ -60,7 +69,17 @@ pub struct Baseline {
 }
 
 pub fn baseline(pal: &Palette, with_shx: bool, ops: &[WOp]) -> Baseline {
+    baseline_chunked(pal, with_shx, ops, 0)
+}
+
+pub fn baseline_chunked(pal: &Palette, with_shx: bool, ops: &[WOp], chunk: u64) -> Baseline {
     let env = WEnv::new(with_shx);
+    if chunk > 0 {
+        env.shp.set_chunking(Chunking::Uniform(chunk as usize));
+        if let Some(x) = &env.shx {
+            x.set_chunking(Chunking::Uniform(chunk as usize));
+        }
+    }
     let results = exec_writer(pal, ops, Ending::Drop, &env, |_, _, _| {});
     let shx_log = env.shx.as_ref().map(|x| x.log()).unwrap_or_default();
     let wc = |l: &[Op]| l.iter().filter(|o| matches!(o, Op::Write { .. })).count() as u64;
@@ -80,20 +99,37 @@ pub struct Obs {
     pub failing_call: Option<usize>,
     pub faults_fired: u32,
     /// for a one-shot fault inside an F: result of the retried F and final bytes of the retried history
-    pub retry: Option<(CallRes, Vec<CallRes>, Vec<u8>, Vec<u8>)>,
+    /// (result of the last retried finalize, all results, final .shp, final .shx, number of failed finalizes before it)
+    pub retry: Option<(CallRes, Vec<CallRes>, Vec<u8>, Vec<u8>, usize)>,
     pub final_shp: Vec<u8>,
     pub final_shx: Vec<u8>,
 }
 
+fn chunk_env(env: &WEnv, chunk: u64) {
+    if chunk > 0 {
+        env.shp.set_chunking(Chunking::Uniform(chunk as usize));
+        if let Some(x) = &env.shx {
+            x.set_chunking(Chunking::Uniform(chunk as usize));
+        }
+    }
+}
+
+/// `base` must be the fault-free run under the same chunking as the plan.
 pub fn observe(pal: &Palette, case: &Case, base: &Baseline) -> Obs {
     let env = WEnv::new(case.with_shx);
     let mut failing_call = None;
+    let dev_of = |e: &WEnv, d: u8| if d == 0 { e.shp.clone() } else { e.shx.clone().expect("fault on a missing .shx") };
     match &case.plan {
-        Plan::Fault { dev, k, persistent } => {
-            let d = if *dev == 0 { &env.shp } else { env.shx.as_ref().expect("fault on a missing .shx") };
-            d.fail_at(*k, if *persistent { FaultMode::Persistent } else { FaultMode::OneShot });
+        Plan::Fault { dev, k, persistent, chunk } => {
+            chunk_env(&env, *chunk);
+            dev_of(&env, *dev).fail_at(*k, if *persistent { FaultMode::Persistent } else { FaultMode::OneShot });
             let log = if *dev == 0 { &base.shp_log } else { &base.shx_log };
             failing_call = log.get(*k as usize).map(|o| o.call() as usize);
+        }
+        Plan::Fault2 { dev1, k1, .. } => {
+            let log = if *dev1 == 0 { &base.shp_log } else { &base.shx_log };
+            failing_call = log.get(*k1 as usize).map(|o| o.call() as usize);
+            dev_of(&env, *dev1).fail_at(*k1, FaultMode::OneShot);
         }
         Plan::Chunk { kind, arg } => {
             let c = match kind {
@@ -110,18 +146,39 @@ pub fn observe(pal: &Palette, case: &Case, base: &Baseline) -> Obs {
     let results = exec_writer(pal, &case.ops, Ending::Drop, &env, |_, _, _| {});
     let fired = env.shp.faults_fired() + env.shx.as_ref().map(|x| x.faults_fired()).unwrap_or(0);
     let mut retry = None;
-    if let (Plan::Fault { dev, k, persistent: false }, Some(c)) = (&case.plan, failing_call) {
-        if c < case.ops.len() && case.ops[c] == WOp::F {
+    let c_is_f = |c: usize| c < case.ops.len() && case.ops[c] == WOp::F;
+    match (&case.plan, failing_call) {
+        (Plan::Fault { dev, k, persistent: false, chunk }, Some(c)) if c_is_f(c) => {
             // same history, the failed finalize called again right away
             let env2 = WEnv::new(case.with_shx);
-            let d = if *dev == 0 { &env2.shp } else { env2.shx.as_ref().unwrap() };
-            d.fail_at(*k, FaultMode::OneShot);
+            chunk_env(&env2, *chunk);
+            dev_of(&env2, *dev).fail_at(*k, FaultMode::OneShot);
             let mut ops2 = case.ops[..=c].to_vec();
             ops2.push(WOp::F);
             ops2.extend_from_slice(&case.ops[c + 1..]);
             let r2 = exec_writer(pal, &ops2, Ending::Drop, &env2, |_, _, _| {});
-            retry = Some((r2[c + 1].clone(), r2.clone(), env2.shp.data(), env2.shx.as_ref().map(|x| x.data()).unwrap_or_default()));
+            retry = Some((r2[c + 1].clone(), r2.clone(), env2.shp.data(), env2.shx.as_ref().map(|x| x.data()).unwrap_or_default(), 1usize));
         }
+        (Plan::Fault2 { dev1, k1, dev2, k2 }, Some(c)) if c_is_f(c) => {
+            // finalize fails, is retried and fails again, is retried again
+            let env2 = WEnv::new(case.with_shx);
+            dev_of(&env2, *dev1).fail_at(*k1, FaultMode::OneShot);
+            dev_of(&env2, *dev2).fail_at(*k2, FaultMode::OneShot);
+            let mut ops2 = case.ops[..=c].to_vec();
+            ops2.push(WOp::F);
+            ops2.push(WOp::F);
+            ops2.extend_from_slice(&case.ops[c + 1..]);
+            let mut fired_in: Vec<u32> = vec![];
+            let r2 = exec_writer(pal, &ops2, Ending::Drop, &env2, |_, _, _| {
+                fired_in.push(env2.shp.faults_fired() + env2.shx.as_ref().map(|x| x.faults_fired()).unwrap_or(0));
+            });
+            // only meaningful if the second fault fired during the second finalize
+            let second_in_retry = fired_in.get(c).copied() == Some(1) && fired_in.get(c + 1).copied() == Some(2);
+            if second_in_retry {
+                retry = Some((r2[c + 2].clone(), r2.clone(), env2.shp.data(), env2.shx.as_ref().map(|x| x.data()).unwrap_or_default(), 2usize));
+            }
+        }
+        _ => {}
     }
     Obs { results, failing_call, faults_fired: fired, retry, final_shp: env.shp.data(), final_shx: env.shx.as_ref().map(|x| x.data()).unwrap_or_default() }
 }
@@ -137,7 +194,12 @@ pub fn judge(case: &Case, base: &Baseline, o: &Obs) -> Vec<(String, String)> {
         }
     }
     match &case.plan {
-        Plan::Fault { dev, k, persistent } => {
+        Plan::Fault { .. } | Plan::Fault2 { .. } => {
+            let (dev, k) = match &case.plan {
+                Plan::Fault { dev, k, .. } => (dev, k),
+                Plan::Fault2 { dev1, k1, .. } => (dev1, k1),
+                _ => unreachable!(),
+            };
             let dn = ["shp", "shx"][*dev as usize];
             let c = match o.failing_call {
                 Some(c) => c,
@@ -167,10 +229,29 @@ pub fn judge(case: &Case, base: &Baseline, o: &Obs) -> Vec<(String, String)> {
                         format!("operation {} on .{} failed during call {} ({}), which returned {:?}", k, dn, c, opn, other),
                     )),
                 }
-                if let Some((fr, all, shp2, shx2)) = &o.retry {
-                    if *fr != CallRes::Ok {
+                // the failed finalize is not retried at once: the history goes on, and a later
+                // finalize (at the latest the one drop performs) completes the files
+                if let Plan::Fault { persistent: false, .. } = &case.plan {
+                    if case.ops[c] == WOp::F {
+                        let later_ok = o.results.iter().enumerate().all(|(i, r)| i == c || *r == CallRes::Ok);
+                        if later_ok && (o.final_shp != base.shp || o.final_shx != base.shx) {
+                            out.push((
+                                format!("files-differ-after-later-finalize:{}", dn),
+                                format!(
+                                    "finalize (call {}) failed once at operation {} on .{}; every later call succeeded, the writer was finalized again by a later call or by drop, yet the files differ from the undisturbed run (.shp {} vs {} bytes, .shx {} vs {} bytes)",
+                                    c, k, dn, o.final_shp.len(), base.shp.len(), o.final_shx.len(), base.shx.len()
+                                ),
+                            ));
+                        }
+                    }
+                }
+                if let Some((fr, all, shp2, shx2, nfailed)) = &o.retry {
+                    let failed_range = c..c + nfailed;
+                    if *nfailed == 2 && !matches!(all.get(c + 1), Some(CallRes::Err(_))) {
+                        out.push((format!("second-failure-not-reported:{}", dn), format!("the retried finalize was hit by a second fault but returned {:?}", all.get(c + 1))));
+                    } else if *fr != CallRes::Ok {
                         out.push((format!("finalize-retry-failed:{}", dn), format!("finalize called again after a one-shot failure of operation {} on .{} returned {:?}", k, dn, fr)));
-                    } else if all.iter().enumerate().any(|(i, r)| i != c && *r != CallRes::Ok) {
+                    } else if all.iter().enumerate().any(|(i, r)| !failed_range.contains(&i) && *r != CallRes::Ok) {
                         out.push((format!("call-after-retry-failed:{}", dn), format!("{:?}", all)));
                     } else if *shp2 != base.shp || *shx2 != base.shx {
                         out.push((
@@ -180,7 +261,6 @@ pub fn judge(case: &Case, base: &Baseline, o: &Obs) -> Vec<(String, String)> {
                     }
                 }
             }
-            let _ = persistent;
         }
         Plan::Chunk { .. } => {
             if o.results.iter().any(|r| *r != CallRes::Ok) {
@@ -217,7 +297,7 @@ pub fn histories(maxlen: usize) -> Vec<Vec<WOp>> {
 
 const UNIFORM: [u64; 11] = [1, 2, 3, 4, 5, 7, 8, 9, 15, 16, 17];
 
-fn run_workload(ty: Ty, with_shx: bool, ops: &[WOp], ctx: &mut Ctx, tick: &dyn Fn()) {
+fn run_workload(ty: Ty, with_shx: bool, ops: &[WOp], chunks: &[u64], ctx: &mut Ctx, tick: &dyn Fn()) {
     let pal = Palette::new(ty, None);
     let base = baseline(&pal, with_shx, ops);
     if base.results.iter().any(|r| *r != CallRes::Ok) {
@@ -231,7 +311,41 @@ fn run_workload(ty: Ty, with_shx: bool, ops: &[WOp], ctx: &mut Ctx, tick: &dyn F
         }
         for k in 0..log.len() as u64 {
             for persistent in [false, true] {
-                plans.push(Plan::Fault { dev, k, persistent });
+                plans.push(Plan::Fault { dev, k, persistent, chunk: 0 });
+            }
+        }
+    }
+    // a second fault during the retry of a failed finalize: every (k1 in a finalize, k2 in a window behind it) on every device pair
+    let devs: Vec<u8> = if with_shx { vec![0, 1] } else { vec![0] };
+    for &d1 in &devs {
+        let log1 = if d1 == 0 { &base.shp_log } else { &base.shx_log };
+        for (k1, op) in log1.iter().enumerate() {
+            let c = op.call() as usize;
+            if c < ops.len() && ops[c] == WOp::F {
+                for &d2 in &devs {
+                    let log2 = if d2 == 0 { &base.shp_log } else { &base.shx_log };
+                    // operations of dev2 up to and including those of call c, plus one finalize's worth
+                    let upto = log2.iter().filter(|o| (o.call() as usize) <= c).count() as u64;
+                    let lo = upto.saturating_sub(8);
+                    for k2 in lo..upto + 8 {
+                        if d1 == d2 && k2 <= k1 as u64 {
+                            continue;
+                        }
+                        plans.push(Plan::Fault2 { dev1: d1, k1: k1 as u64, dev2: d2, k2 });
+                    }
+                }
+            }
+        }
+    }
+    // faults under short writes
+    let chunked: Vec<(u64, Baseline)> = chunks.iter().map(|c| (*c, baseline_chunked(&pal, with_shx, ops, *c))).collect();
+    for (c, b) in &chunked {
+        for (dev, log) in [(0u8, &b.shp_log), (1u8, &b.shx_log)] {
+            if dev == 1 && !with_shx {
+                continue;
+            }
+            for k in 0..log.len() as u64 {
+                plans.push(Plan::Fault { dev, k, persistent: false, chunk: *c });
             }
         }
     }
@@ -250,8 +364,16 @@ fn run_workload(ty: Ty, with_shx: bool, ops: &[WOp], ctx: &mut Ctx, tick: &dyn F
         let case = Case { ty, with_shx, ops: ops.to_vec(), plan };
         let mut h = Fnv::new();
         h.str(&case.to_json().to_string());
-        match catch(|| observe(&pal, &case, &base)) {
+        let b: &Baseline = match &case.plan {
+            Plan::Fault { chunk, .. } if *chunk > 0 => &chunked.iter().find(|(c, _)| c == chunk).unwrap().1,
+            _ => &base,
+        };
+        match catch(|| observe(&pal, &case, b)) {
             Ok(o) => {
+                // a double fault whose second fault did not land in the retry is not a case
+                if matches!(case.plan, Plan::Fault2 { .. }) && o.retry.is_none() {
+                    continue;
+                }
                 ctx.lib_calls += ops.len() as u64 + 2;
                 let mut oh = Fnv::new();
                 for r in &o.results {
@@ -262,7 +384,7 @@ fn run_workload(ty: Ty, with_shx: bool, ops: &[WOp], ctx: &mut Ctx, tick: &dyn F
                 if ops.len() == 3 && matches!(case.plan, Plan::Fault { k: 5, .. }) {
                     ctx.sample(|| case.to_json());
                 }
-                for (sig, d) in judge(&case, &base, &o) {
+                for (sig, d) in judge(&case, b, &o) {
                     ctx.violation(format!("{}:{}", ty.name(), sig), || case.to_json(), || d);
                 }
             }
@@ -282,7 +404,7 @@ fn selftest() -> (u64, u64) {
     let base = baseline(&pal, true, &ops);
     // the finalize's first .shp operation
     let k = base.shp_log.iter().position(|o| o.call() == 1).unwrap() as u64;
-    let case = Case { ty, with_shx: true, ops: ops.clone(), plan: Plan::Fault { dev: 0, k, persistent: false } };
+    let case = Case { ty, with_shx: true, ops: ops.clone(), plan: Plan::Fault { dev: 0, k, persistent: false, chunk: 0 } };
     if !judge(&case, &base, &observe(&pal, &case, &base)).is_empty() {
         return (1, 0);
     }
@@ -330,11 +452,60 @@ pub fn check(tier: Tier) -> i32 {
             }
         }
     }
+    let chunks: Vec<u64> = tier.pick(vec![1, 7], vec![1, 3, 7, 16]);
     let deadline = Some(started + std::time::Duration::from_secs(tier.pick(50, 1700)));
     let (agg, capped) = par_blocks(units.len(), deadline, |b, ctx, tick| {
         let (ty, with_shx, ops) = &units[b];
-        run_workload(*ty, *with_shx, ops, ctx, tick);
+        run_workload(*ty, *with_shx, ops, &chunks, ctx, tick);
     });
+    // large shapes under short writes of every magnitude (block-wise emission must not lose bytes)
+    let mut big = Ctx::new();
+    for ty in [Ty::PolylineZ, Ty::MultipointM, Ty::Polygon] {
+        for n in [8193usize, 20000, 70001] {
+            let lib = crate::bridge::to_lib(&crate::structs::sized(ty, n));
+            let run = |chunk: usize| -> Result<(Vec<u8>, Vec<u8>), String> {
+                let env = WEnv::new(true);
+                if chunk > 0 {
+                    env.shp.0.borrow_mut().logging = false;
+                    env.shx.as_ref().unwrap().0.borrow_mut().logging = false;
+                    chunk_env(&env, chunk as u64);
+                }
+                {
+                    let mut w = ShapeWriter::with_shx(env.shp.clone(), env.shx.clone().unwrap());
+                    crate::bridge::write_shape(&mut w, &lib).map_err(|e| crate::bridge::err_kind(&e))?;
+                    crate::bridge::write_shape(&mut w, &lib).map_err(|e| crate::bridge::err_kind(&e))?;
+                }
+                Ok((env.shp.data(), env.shx.as_ref().unwrap().data()))
+            };
+            let reference = run(0);
+            for chunk in [7usize, 512, 4096, 65536, 100_000, 131_071, 1 << 20] {
+                let cj = json!({"ty": ty.name(), "points_in_part": n, "chunk": chunk});
+                let mut hh = Fnv::new();
+                hh.str(&cj.to_string());
+                big.case_done(hh.finish(), true, 9);
+                big.lib_calls += 3;
+                match catch(|| run(chunk)) {
+                    Ok(r) => {
+                        if r != reference {
+                            big.violation(format!("{}:short-write:large-shape-differs", ty.name()), || cj.clone(), || format!("destination accepting <= {} bytes per call: files differ from the unrestricted run ({:?} vs {:?} .shp bytes)", chunk, r.as_ref().map(|x| x.0.len()), reference.as_ref().map(|x| x.0.len())));
+                        }
+                    }
+                    Err(p) => big.violation(format!("{}:{}", ty.name(), p.sig()), || cj.clone(), || p.msg.clone()),
+                }
+            }
+        }
+    }
+    let mut agg = agg;
+    {
+        let e = merge(vec![big]);
+        agg.evals += e.evals;
+        agg.lib_calls += e.lib_calls;
+        agg.distinct_cases += e.distinct_cases;
+        agg.distinct_nontrivial += e.distinct_nontrivial;
+        for (k, f) in e.findings {
+            agg.findings.insert(k, f);
+        }
+    }
     let st = selftest();
     let _ = ShapeWriter::<crate::dev::Dev>::new;
     finish(
@@ -343,7 +514,7 @@ pub fn check(tier: Tier) -> i32 {
             tier,
             level: "fault_enumeration",
             engine: "writer histories on the real ShapeWriter over fault-injecting / short-writing devices; one execution per (workload, fault point or chunking schedule)",
-            rule: "workloads = every history over {Wa, Wb, F} up to the length bound x {with, without .shx} x types, ending in drop; fault points = every operation index k (write, seek or flush, counted on the fault-free log of this tree) on each device x {one-shot, persistent}; a one-shot fault inside a finalize is followed by the same history with that finalize retried; chunking = uniform c in {1,2,3,4,5,7,8,9,15,16,17} and, for every write call j, 'call j moves 1 byte' and 'call j moves len-1 bytes'; every case is non-trivial",
+            rule: "workloads = every history over {Wa, Wb, F} up to the length bound x {with, without .shx} x types, ending in drop; fault points = every operation index k (write, seek or flush, counted on the fault-free log of this tree) on each device x {one-shot, persistent}; a one-shot fault inside a finalize is followed by the same history with that finalize retried; a second one-shot fault at every operation of that retry (same or other device) followed by a third call; every fault point again under uniform short writes (chunk 1 and 7; thorough 1, 3, 7, 16); a one-shot fault inside a finalize that is NOT retried at once: the history goes on and the files after drop equal the undisturbed run; chunking = uniform c in {1,2,3,4,5,7,8,9,15,16,17} (and 7..2^20 on shapes of 8193..70001 points) and, for every write call j, 'call j moves 1 byte' and 'call j moves len-1 bytes'; every case is non-trivial",
             bounds: json!({"max_history": tier.pick(4, 6), "types": types.iter().map(|t| t.name()).collect::<Vec<_>>(), "uniform_chunks": UNIFORM}),
             exhaustive: true,
             assumptions: vec![
@@ -366,7 +537,11 @@ pub fn replay(v: &Value) -> Vec<(String, String)> {
         None => vec![("bad-replay-file".into(), "cannot parse case".into())],
         Some(case) => {
             let pal = Palette::new(case.ty, None);
-            let base = baseline(&pal, case.with_shx, &case.ops);
+            let chunk = match &case.plan {
+                Plan::Fault { chunk, .. } => *chunk,
+                _ => 0,
+            };
+            let base = baseline_chunked(&pal, case.with_shx, &case.ops, chunk);
             match catch(|| observe(&pal, &case, &base)) {
                 Ok(o) => judge(&case, &base, &o).into_iter().map(|(s, d)| (format!("{}:{}", case.ty.name(), s), d)).collect(),
                 Err(p) => vec![(format!("{}:harness-or-drop-panic:{}", case.ty.name(), p.sig()), p.msg)],
